@@ -23,6 +23,35 @@ CHECKS = {
         ],
         "outside": ["-args", "-C ordering", "what the go command does with the arguments", "toolexecCmd's assembly of the nested go command (I/O bound)", "cmdgoQuotedSplit/Join"],
     },
+    "C06": {
+        "level": "model_checking",
+        "level_text": "bounded symbolic model checking of the real addGarbleToHash/appendFlags and of the derived cache-ID functions: two symbolic configurations are hashed and the solver shows that equal keys force equal configurations (sha256 as an uninterpreted, collision-free function), i.e. no output-affecting input is missing from or ambiguous in the key",
+        "level_note": "trusted: gosx encoder (witnesses replayed natively), z3 5.1; assumption: sha256 is collision free; GOGARBLE restricted to printable ASCII without quote/backslash of lengths {0,1,2,8} (thorough adds 12), binary/tool IDs 2 symbolic bytes, seed 8 bytes",
+        "claim": "garble's contribution to cmd/go's action IDs and its own cache IDs is injective in garble's output-affecting inputs",
+        "opts": dict(W),
+        "runs": [
+            {"harness": "H_C06_key_injective", "reach": ["hashed"], "bound_quick": "2 configurations: GOGARBLE len in {0,1,2,8}, -literals, -tiny, seed absent/8 bytes; 2-byte IDs", "bound_thorough": "adds len 12 and controlflow on/off"},
+            {"harness": "H_C06_key_ignores_debug", "reach": ["hashed"], "bound": "all configurations of the quick shape"},
+            {"harness": "H_C06_cache_kinds", "reach": ["hashed"], "bound": "arbitrary 32-byte garble action IDs"},
+        ],
+        "outside": ["cmd/go's use of the tool ID and GOCACHE", "-tags/-ldflags/source edits (covered by cmd/go's action IDs)", "-ldflags seen by -literals at compile time (acknowledged risk, transformer.go:45-57)", "alterToolVersion's exec of the real tool", "linker version stamp (internal/linker)"],
+    },
+    "C12": {
+        "level": "model_checking",
+        "level_text": "bounded symbolic model checking of the real hashWithPackage/hashWithStruct/hashWithCustomSalt/runtimeHashWithCustomSalt/seedFlag.Set: each sentence of the property is a relation between hash inputs (sha256 uninterpreted and collision free), decided for symbolic seeds, import paths, identifiers, IDs and flags",
+        "level_note": "trusted: gosx encoder, z3 5.1; sha256 collision free; import paths without '|' (not a legal import-path byte) of 1..2 (thorough 3) bytes, identifiers of 1..2 (3) bytes, seeds of 8..9 bytes; only digests giving 6-character names are followed in H_C12_seeded_distinct",
+        "claim": "name salting: seeded names depend on (seed, package path, identifier) only and are injective in them; unseeded names follow the garble action ID; field names ignore action IDs; runtime keys follow the same inputs; -seed parsing round-trips",
+        "opts": dict(W),
+        "runs": [
+            {"harness": "H_C12_seeded_stable", "reach": ["hashed"], "bound": "2 configurations x paths/identifiers of 1..2 symbolic bytes"},
+            {"harness": "H_C12_seeded_distinct", "reach": ["hashed"], "bound_quick": "paths and identifiers of 1..2 bytes, seeds 8..9 bytes", "bound_thorough": "1..3 bytes"},
+            {"harness": "H_C12_unseeded_pkg", "reach": ["hashed"], "bound": "arbitrary 32-byte action IDs, identifiers of 1..2 bytes"},
+            {"harness": "H_C12_fields", "reach": ["hashed"], "bound": "a 2-field struct built with go/types; 2 configurations"},
+            {"harness": "H_C12_runtime_keys", "reach": ["hashed"], "bound": "arbitrary runtime action ID / 8-byte seeds"},
+            {"harness": "H_C12_seedflag", "reach": ["set"], "bound": "seeds of 6..10 symbolic bytes, 0..2 padding characters"},
+        ],
+        "outside": ["that cmd/go's action ID covers source, tags and platform", "struct identity hashing for other struct shapes (C15)"],
+    },
     "C16": {
         "level": "model_checking",
         "level_text": "bounded symbolic model checking of the real hashWithCustomSalt: every path of the function is executed on 32 arbitrary digest bytes and the solver shows the name invariants unsatisfiable to violate; exhaustive over the digest, sampled over name classes",
